@@ -45,6 +45,8 @@ QUICK = [
     (130, [[SR(127, 2)], [H], [SR(126, 3)]]),
     (130, [[SR(128, 5)], [H]]),          # runs past the end of the bitmap
     (130, [[SB(5), SB(70)], [RB(40), RB(100)], [H]]),    # clearing one page must not touch lower pages of its word
+    (64, [[SR(5, 1), SR(5, 1)], [H]]),                   # the same page marked twice with a harvest in between: both marks count
+    (130, [[SB(63), SR(63, 1), SR(64, 1)], [H, H]]),
 ]
 THOROUGH = QUICK + [
     (130, [[SR(62, 3), SB(0)], [H, SB(64), H]]),
